@@ -129,11 +129,11 @@ class DynProperty(Property):
 
     def cases(self, tier, rng):
         lines = []
-        per = 45 if tier == "quick" else 800
+        per = 45 if tier == "quick" else 6000
         for kind in KINDS:
             k = per if not kind.startswith("dummy") else max(6, per // 4)
             for _ in range(k):
-                toks = gen_history(rng, kind, rng.randint(5, 40 if tier == "quick" else 60), self.bad_rate)
+                toks = gen_history(rng, kind, rng.randint(5, 40 if tier == "quick" else 90), self.bad_rate)
                 f = " factor=%s" % rng.choice(FACTORS) if kind.endswith("_att") else ""
                 tr = " trace=1" if kind in MODELLED else ""
                 lines.append("dyn x kind=%s%s%s hist=%s" % (kind, f, tr, ";".join(toks)))
